@@ -4,6 +4,8 @@ import (
 	"fmt"
 	"hash/fnv"
 	"runtime"
+	"strconv"
+	"strings"
 	"sync"
 	"sync/atomic"
 	"time"
@@ -171,6 +173,34 @@ func (s *Sched) Yield(site uint32) {
 	s.handoff(t, evYield)
 }
 
+// goroutineBusy reports whether goroutine id is running or runnable (as
+// opposed to waiting on something) according to a full stack dump.
+//
+//go:norace
+func goroutineBusy(id uint64) bool {
+	buf := make([]byte, 1<<20)
+	n := runtime.Stack(buf, true)
+	dump := string(buf[:n])
+	// no fmt here: this runs while the race detector's view of
+	// synchronisation is switched off, and fmt recycles printers through a
+	// sync.Pool
+	head := "goroutine " + strconv.FormatUint(id, 10) + " ["
+	i := strings.Index(dump, head)
+	if i < 0 {
+		return false
+	}
+	rest := dump[i+len(head):]
+	j := strings.IndexAny(rest, "],")
+	if j < 0 {
+		return false
+	}
+	switch rest[:j] {
+	case "running", "runnable":
+		return true
+	}
+	return false
+}
+
 // curGoid returns the id of the calling goroutine.
 //
 //go:norace
@@ -258,8 +288,16 @@ func (s *Sched) finish(t *Task) {
 	raceEnable()
 }
 
+//go:norace
+//go:noinline
+func setGoid(t *Task) { t.goid = curGoid() }
+
+//go:norace
+//go:noinline
+func getGoid(t *Task) uint64 { return t.goid }
+
 func (s *Sched) taskBody(t *Task) {
-	t.goid = curGoid()
+	setGoid(t)
 	raceDisable()
 	<-t.wake
 	raceEnable()
@@ -420,10 +458,25 @@ func (s *Sched) Run() {
 		timedOut := false
 		raceDisable()
 		next.wake <- struct{}{}
-		select {
-		case ev = <-s.back:
-		case <-timer.C:
-			timedOut = true
+	wait:
+		for waited := 0; ; waited++ {
+			select {
+			case ev = <-s.back:
+				break wait
+			case <-timer.C:
+				// No hand-off for a whole watchdog period.  If the task's
+				// goroutine is running or runnable it is merely starved (a
+				// loaded machine): keep waiting.  Only a goroutine that sits
+				// in a wait state (semaphore, channel, condition variable)
+				// is blocked inside the library where the scheduler cannot
+				// see it.
+				if waited < 30 && goroutineBusy(getGoid(next)) {
+					timer.Reset(s.Watchdog)
+					continue
+				}
+				timedOut = true
+				break wait
+			}
 		}
 		raceEnable()
 		if timedOut {
